@@ -162,6 +162,18 @@ Section TreeEval.
   Qed.
 End TreeEval.
 
+Lemma subtree_output_unfold c8 h K F ctr bytes :
+  subtree_output c8 (S h) K F ctr bytes =
+  if len bytes <=? 1024 then chunk_output c8 K F ctr bytes
+  else let l := left_len (len bytes) in
+       parent_output K F
+         (chaining_value c8 (subtree_output c8 h K F ctr (take l bytes)))
+         (chaining_value c8 (subtree_output c8 h K F (ctr + l / 1024) (drop l bytes))).
+Proof. reflexivity. Qed.
+
+Lemma tree_height_S : tree_height = S 63.
+Proof. reflexivity. Qed.
+
 (* ---- arithmetic of the tree shape --------------------------------------------- *)
 Definition chunks (n : N) : N := (n + 1023) / 1024.
 
